@@ -1,7 +1,8 @@
 (** C01 -- property file.  Contains only: the full statement, the proved statement (closed by [exact]),
     the instantiation obligations on the facts regenerated from /repo, a non-vacuity example,
     and Print Assumptions. *)
-From SF Require Import Model.Chain Model.ChainProof.
+From SF Require Import Model.Chain Model.ChainProof Model.ChainOrder Model.ChainExt.
+From Coq Require Import Permutation Sorting.Sorted.
 From Gen Require Import C01Facts.
 Open Scope Z_scope.
 
@@ -39,6 +40,26 @@ Theorem C01_partial :
     eval_df (compile gen_cfg ops (init_df (cols input))) input = spec_run ops input.
 Proof. exact (chain_from_input gen_cfg gen_cfg_ok gen_limit_ok). Qed.
 Print Assumptions C01_partial.
+
+(** the excluded case, orderBy written into a block that already has an ORDER BY (orderBy directly after
+    orderBy): the result has Spark's columns, is a permutation of Spark's rows and is sorted by the new keys *)
+Theorem C01_orderBy_after_orderBy : forall b S ks,
+  b_limit b = None -> wf_frame S -> NoDup (cols S) ->
+  forallb (key_ok (is_simple b (cols S)) (out_cols (b_sel b))) ks = true ->
+  let R := eval_block (body gen_cfg (OOrderBy ks) b) S in
+  let P := eval_block b S in
+  cols R = cols P /\
+  Permutation (rows R) (rows (spec_step (OOrderBy ks) P)) /\
+  LocallySorted (le_rows (cols R) ks) (rows R).
+Proof. exact (orderby_replaces gen_cfg gen_order_replaces). Qed.
+Print Assumptions C01_orderBy_after_orderBy.
+
+(** dropna's emulation (count the NULLs, keep rows below the minimum) is PySpark's how/thresh/subset rule *)
+Theorem C01_dropna_emulation : forall cs r how thresh chk,
+  holds cs r (EBin Lt (num_nulls_expr chk) (ELit (VInt (min_num_nulls how thresh (Z.of_nat (List.length chk))))))
+  = dropna_keep cs how thresh chk r.
+Proof. exact dropna_emulation_ok. Qed.
+Print Assumptions C01_dropna_emulation.
 
 (** the domain is inhabited by a program that exercises every wrap decision *)
 Example C01_domain_nonempty :
